@@ -204,3 +204,21 @@ Proof.
   destruct Hparse as [g Hg]. rewrite Hg. cbn [through_tags].
   rewrite (fill_entries (entries_of c) [] zero_claims); [now rewrite apply_entries|exact Hok|intros e _ k []|exact ND].
 Qed.
+
+(* C08: whatever the struct decoder accepts passed the strict generic decoding first, so it holds no duplicate key
+   at any depth (C08_duplicate_key_refused_at_any_depth), no invalid text, no indefinite-length item *)
+Theorem claims_strict raw c : dec_claims raw = Ok c -> exists it g, decode raw = Ok it /\ parse true it = Ok g.
+Proof.
+  unfold dec_claims, bind. destruct (decode raw) as [it| |]; try discriminate. destruct (parse true it) as [g| |] eqn:P; try discriminate.
+  intros _. exists it, g. split; [reflexivity|exact P].
+Qed.
+
+(* C08: the members are written in the deterministic order (labels 1..7 ascending, one-byte heads) *)
+Theorem claims_item_canonical c : canon (claims_item c) = claims_item c.
+Proof.
+  rewrite claims_item_entries, canon_map_unfold. f_equal.
+  assert (E : map canon2 (map entry_kv (entries_of c)) = map entry_kv (entries_of c)).
+  { rewrite map_map. apply map_ext. intros [l s|l u|l b]; unfold canon2, entry_kv, int_item; cbn [fst snd];
+      repeat match goal with |- context [if ?x then _ else _] => destruct x end; reflexivity. }
+  rewrite E. apply isort_id. apply sorted_entries; [apply entries_increasing|apply entries_in_range].
+Qed.
